@@ -7,7 +7,7 @@ package forwarder
 // writes the responses of a scripted origin to a captured connection; the captured bytes are parsed back by an
 // HTTP/1 client parser and compared with what the origin produced.
 //
-//vf:assume C02-pipe: two exchanges per connection; per response: status from {200,404,204,304,500}, <=2 header fields from a pool (end-to-end incl. a repeated Set-Cookie, hop-by-hop, Connection nomination) with symbolic values, body of 3 symbolic bytes delimited by Content-Length / unknown length (chunked to 1.1 clients, close-delimited to 1.0) / with declared trailer / close-delimited HTTP/1.0 origin reply; request methods GET/HEAD; client protocol 1.0/1.1
+//vf:assume C02-pipe: two exchanges per connection; per response: status from {200,404,204,304,500,205} (thorough: also 201,206,301,503), <=2 header fields from a pool (end-to-end incl. a repeated Set-Cookie, hop-by-hop, Connection nomination) with symbolic values, body of 3 symbolic bytes delimited by Content-Length / unknown length (chunked to 1.1 clients, close-delimited to 1.0) / with declared trailer / close-delimited HTTP/1.0 origin reply; request methods GET/HEAD; client protocol 1.0/1.1
 //vf:assume C02-pipe: gzip handling and timing of delivery are properties of http.Transport / the kernel and outside; incremental flushing is decided in vfH_C02_flush
 
 import (
@@ -37,7 +37,11 @@ type vfSentField struct{ name, value string }
 var vfResFieldPool = []vfSentField{{"X-A", ""}, {"Set-Cookie", ""}, {"Set-Cookie", "k=v"}, {"Keep-Alive", "timeout=1"}, {"Connection", "X-A"}, {"Proxy-Authenticate", "Basic"}, {"Content-Type", "text/plain"}}
 
 func vfMakeResponse(i int) vfOriginResponse {
-	r := vfOriginResponse{code: []int{200, 404, 204, 304, 500}[vfrt.Choice("status", 5)]}
+	codes := []int{200, 404, 204, 304, 500, 205}
+	if vfrt.Thorough() {
+		codes = append(codes, 201, 206, 301, 503)
+	}
+	r := vfOriginResponse{code: codes[vfrt.Choice("status", len(codes))]}
 	nf := vfrt.Choice("fields", 3)
 	for k := 0; k < nf; k++ {
 		f := vfResFieldPool[vfrt.Choice("field", len(vfResFieldPool))]
